@@ -51,6 +51,18 @@ pub struct VisBody {
     /// keyspaces rotated (sealed memtable + queued flush) before the threads start
     pub prerotate: Vec<&'static str>,
     pub threads: Vec<Vec<Act>>,
+    /// extra clauses evaluated on the final state
+    pub finals: Finals,
+}
+
+#[derive(Clone, Copy, PartialEq, Debug, Default)]
+pub enum Finals {
+    #[default]
+    None,
+    /// C01/C14: for every key, the point read through the handle equals what a scan shows
+    PointVsScan,
+    /// C04: after dropping every handle, reopening shows exactly the content seen right before the close
+    ReopenSame,
 }
 
 enum AnyDb {
@@ -223,14 +235,32 @@ impl Body for VisBody {
                 done.fetch_add(1, Ordering::SeqCst);
             }));
         }
+        let final_state: Arc<Mutex<Vec<(String, String, String, String)>>> = Arc::new(Mutex::new(vec![]));
         {
             let done = done.clone();
+            let final_state = final_state.clone();
             handles.push(spawn_client("closer", move || {
                 client_block_until(&|| done.load(Ordering::SeqCst) == n, "closer.wait_clients");
+                // (keyspace, key, point read, scan value) for every key of the universe
+                let mut out = vec![];
+                for (name, h) in &kss {
+                    let mut scan: BTreeMap<String, String> = BTreeMap::new();
+                    for g in h.iter() {
+                        if let Ok((k, v)) = g.into_inner() {
+                            scan.insert(String::from_utf8_lossy(&k).into_owned(), String::from_utf8_lossy(&v).into_owned());
+                        }
+                    }
+                    for k in ["a", "ab", "b"] {
+                        out.push((name.to_string(), k.to_string(), val(h.get(k)), scan.get(k).cloned().unwrap_or_else(|| "-".into())));
+                    }
+                }
+                *final_state.lock().unwrap() = out;
                 drop(kss);
                 drop(db);
             }));
         }
+        let finals = self.finals;
+        let kind = self.kind;
         // oracle data: per writer thread, its committed groups in order
         let mut groups: Vec<(usize, Vec<It>)> = vec![];
         for (tid, acts) in self.threads.iter().enumerate() {
@@ -243,10 +273,32 @@ impl Body for VisBody {
             }
         }
         let initial: BTreeMap<(String, String), String> = self.initial.iter().map(|(ks, k, v)| ((ks.to_string(), k.to_string()), v.to_string())).collect();
-        let judge = Box::new(move |_dir: &Path| -> Result<String, Violation> {
+        let judge = Box::new(move |dir: &Path| -> Result<String, Violation> {
             let errs = errors.lock().unwrap().clone();
             if !errs.is_empty() {
                 return Err(Violation::new("op_error", errs.join(" | ")));
+            }
+            let fin = final_state.lock().unwrap().clone();
+            if finals != Finals::None {
+                for (ks, k, point, scan) in &fin {
+                    if point != scan {
+                        return Err(Violation::new("point_read_vs_scan", format!("after all threads finished: {ks}.{k}: get = {point}, scan = {scan}")));
+                    }
+                }
+            }
+            if finals == Finals::ReopenSame {
+                let _ = kind;
+                let db = Database::builder(dir).worker_threads_unchecked(0).open().map_err(|e| Violation::new("reopen.open_error", format!("{e:?}")))?;
+                for (ks, k, _point, scan) in &fin {
+                    if !db.keyspace_exists(ks) {
+                        continue;
+                    }
+                    let h = db.keyspace(ks, KeyspaceCreateOptions::default).map_err(|e| Violation::new("reopen.open_error", format!("{e:?}")))?;
+                    let after = val(h.get(k));
+                    if &after != scan {
+                        return Err(Violation::new("reopen.content_differs", format!("{ks}.{k} was {scan} right before the close but is {after} after reopening")));
+                    }
+                }
             }
             let seen = seen.lock().unwrap().clone();
             let mut desc = vec![];
@@ -336,20 +388,22 @@ pub fn bodies(tier: &str) -> Vec<BodySpec> {
     let writer = vec![Batch(vec![("x", "a", "1"), ("y", "b", "1")]), Batch(vec![("x", "a", "2"), ("y", "a", "2")])];
     let reader = vec![SnapRead(vec![("x", "a"), ("y", "b"), ("y", "a")])];
     let mut v = vec![
-        b(VisBody { name: "batch|snapshot", kind: Kind::Plain, workers: 0, keyspaces: vec!["x", "y"], initial: init.clone(), prerotate: vec![], threads: vec![writer.clone(), reader.clone()] }, if q { 2 } else { 3 }, if q { 5.0 } else { 120.0 }),
-        b(VisBody { name: "batch|snapshot|worker-flush-z", kind: Kind::Plain, workers: 1, keyspaces: vec!["x", "y", "z"], initial: { let mut i = init.clone(); i.push(("z", "a", "0")); i }, prerotate: vec!["z"], threads: vec![writer.clone(), reader.clone()] }, if q { 2 } else { 3 }, if q { 9.0 } else { 300.0 }),
-        b(VisBody { name: "batch|snapshot|insert-other", kind: Kind::Plain, workers: 0, keyspaces: vec!["x", "y", "z"], initial: init.clone(), prerotate: vec![], threads: vec![vec![Batch(vec![("x", "a", "1"), ("x", "b", "1"), ("y", "b", "1")])], reader.clone(), vec![Ins(("z", "a", "9"))]] }, if q { 2 } else { 3 }, if q { 7.0 } else { 200.0 }),
-        b(VisBody { name: "batch|scan|insert-other", kind: Kind::Plain, workers: 0, keyspaces: vec!["x", "z"], initial: vec![("x", "a", "0"), ("x", "b", "0")], prerotate: vec![], threads: vec![vec![Batch(vec![("x", "a", "1"), ("x", "b", "1")])], vec![Scan("x")], vec![Ins(("z", "a", "9"))]] }, if q { 2 } else { 3 }, if q { 5.0 } else { 120.0 }),
-        b(VisBody { name: "occ-tx|snapshot|create-keyspace", kind: Kind::Occ, workers: 0, keyspaces: vec!["x", "y"], initial: init.clone(), prerotate: vec![], threads: vec![vec![Tx(vec![("x", "a", "1"), ("y", "b", "1")])], reader.clone(), vec![CreateKs("n")]] }, if q { 1 } else { 2 }, if q { 5.0 } else { 200.0 }),
-        b(VisBody { name: "sw-tx|snapshot|rotate-x", kind: Kind::Sw, workers: 0, keyspaces: vec!["x", "y"], initial: init.clone(), prerotate: vec![], threads: vec![vec![Tx(vec![("x", "a", "1"), ("y", "b", "1")])], reader.clone(), vec![Rotate("x")]] }, if q { 1 } else { 2 }, if q { 5.0 } else { 200.0 }),
+        b(VisBody { name: "batch|snapshot", kind: Kind::Plain, workers: 0, keyspaces: vec!["x", "y"], initial: init.clone(), prerotate: vec![], threads: vec![writer.clone(), reader.clone()], finals: Finals::None }, if q { 2 } else { 3 }, if q { 5.0 } else { 120.0 }),
+        b(VisBody { name: "batch|snapshot|worker-flush-z", kind: Kind::Plain, workers: 1, keyspaces: vec!["x", "y", "z"], initial: { let mut i = init.clone(); i.push(("z", "a", "0")); i }, prerotate: vec!["z"], threads: vec![writer.clone(), reader.clone()], finals: Finals::None }, if q { 2 } else { 3 }, if q { 9.0 } else { 300.0 }),
+        b(VisBody { name: "batch|snapshot|insert-other", kind: Kind::Plain, workers: 0, keyspaces: vec!["x", "y", "z"], initial: init.clone(), prerotate: vec![], threads: vec![vec![Batch(vec![("x", "a", "1"), ("x", "b", "1"), ("y", "b", "1")])], reader.clone(), vec![Ins(("z", "a", "9"))]], finals: Finals::None }, if q { 2 } else { 3 }, if q { 7.0 } else { 200.0 }),
+        b(VisBody { name: "batch|scan|insert-other", kind: Kind::Plain, workers: 0, keyspaces: vec!["x", "z"], initial: vec![("x", "a", "0"), ("x", "b", "0")], prerotate: vec![], threads: vec![vec![Batch(vec![("x", "a", "1"), ("x", "b", "1")])], vec![Scan("x")], vec![Ins(("z", "a", "9"))]], finals: Finals::None }, if q { 2 } else { 3 }, if q { 5.0 } else { 120.0 }),
+        b(VisBody { name: "occ-tx|snapshot|create-keyspace", kind: Kind::Occ, workers: 0, keyspaces: vec!["x", "y"], initial: init.clone(), prerotate: vec![], threads: vec![vec![Tx(vec![("x", "a", "1"), ("y", "b", "1")])], reader.clone(), vec![CreateKs("n")]], finals: Finals::None }, if q { 1 } else { 2 }, if q { 5.0 } else { 200.0 }),
+        b(VisBody { name: "sw-tx|snapshot|rotate-x", kind: Kind::Sw, workers: 0, keyspaces: vec!["x", "y"], initial: init.clone(), prerotate: vec![], threads: vec![vec![Tx(vec![("x", "a", "1"), ("y", "b", "1")])], reader.clone(), vec![Rotate("x")]], finals: Finals::None }, if q { 1 } else { 2 }, if q { 5.0 } else { 200.0 }),
     ];
+    v.push(b(VisBody { name: "sw-tx same key in two keyspaces|snapshot", kind: Kind::Sw, workers: 0, keyspaces: vec!["x", "y"], initial: init.clone(), prerotate: vec![], threads: vec![vec![Tx(vec![("x", "a", "1"), ("y", "a", "1")])], vec![SnapRead(vec![("x", "a"), ("y", "a")])]], finals: Finals::None }, 1, if q { 3.0 } else { 60.0 }));
+    v.push(b(VisBody { name: "occ-tx same key in two keyspaces|snapshot", kind: Kind::Occ, workers: 0, keyspaces: vec!["x", "y"], initial: init.clone(), prerotate: vec![], threads: vec![vec![Tx(vec![("x", "b", "1"), ("y", "b", "1")])], vec![SnapRead(vec![("x", "b"), ("y", "b")])]], finals: Finals::None }, 1, if q { 3.0 } else { 60.0 }));
     if !q {
         let z_init = { let mut i = init.clone(); i.push(("z", "a", "0")); i };
-        v.push(b(VisBody { name: "batch|snapshot|clear-z", kind: Kind::Plain, workers: 0, keyspaces: vec!["x", "y", "z"], initial: z_init.clone(), prerotate: vec![], threads: vec![writer.clone(), reader.clone(), vec![Clear("z")]] }, 2, 200.0));
-        v.push(b(VisBody { name: "batch|snapshot|delete-z", kind: Kind::Plain, workers: 0, keyspaces: vec!["x", "y", "z"], initial: z_init.clone(), prerotate: vec![], threads: vec![writer.clone(), reader.clone(), vec![DeleteKs("z")]] }, 2, 200.0));
-        v.push(b(VisBody { name: "batch|snapshot|ingest-z", kind: Kind::Plain, workers: 0, keyspaces: vec!["x", "y", "z"], initial: z_init.clone(), prerotate: vec![], threads: vec![writer.clone(), reader.clone(), vec![Ingest("z", vec![("a", "5")])]] }, 2, 200.0));
-        v.push(b(VisBody { name: "batch|snapshot|major-z", kind: Kind::Plain, workers: 1, keyspaces: vec!["x", "y", "z"], initial: z_init.clone(), prerotate: vec!["z"], threads: vec![writer.clone(), reader.clone(), vec![Major("z")]] }, 2, 300.0));
-        v.push(b(VisBody { name: "2 batch writers|snapshot", kind: Kind::Plain, workers: 0, keyspaces: vec!["x", "y"], initial: init.clone(), prerotate: vec![], threads: vec![vec![Batch(vec![("x", "a", "1"), ("y", "b", "1")])], vec![Batch(vec![("x", "b", "1"), ("y", "a", "1")])], reader.clone()] }, 3, 300.0));
+        v.push(b(VisBody { name: "batch|snapshot|clear-z", kind: Kind::Plain, workers: 0, keyspaces: vec!["x", "y", "z"], initial: z_init.clone(), prerotate: vec![], threads: vec![writer.clone(), reader.clone(), vec![Clear("z")]], finals: Finals::None }, 2, 200.0));
+        v.push(b(VisBody { name: "batch|snapshot|delete-z", kind: Kind::Plain, workers: 0, keyspaces: vec!["x", "y", "z"], initial: z_init.clone(), prerotate: vec![], threads: vec![writer.clone(), reader.clone(), vec![DeleteKs("z")]], finals: Finals::None }, 2, 200.0));
+        v.push(b(VisBody { name: "batch|snapshot|ingest-z", kind: Kind::Plain, workers: 0, keyspaces: vec!["x", "y", "z"], initial: z_init.clone(), prerotate: vec![], threads: vec![writer.clone(), reader.clone(), vec![Ingest("z", vec![("a", "5")])]], finals: Finals::None }, 2, 200.0));
+        v.push(b(VisBody { name: "batch|snapshot|major-z", kind: Kind::Plain, workers: 1, keyspaces: vec!["x", "y", "z"], initial: z_init.clone(), prerotate: vec!["z"], threads: vec![writer.clone(), reader.clone(), vec![Major("z")]], finals: Finals::None }, 2, 300.0));
+        v.push(b(VisBody { name: "2 batch writers|snapshot", kind: Kind::Plain, workers: 0, keyspaces: vec!["x", "y"], initial: init.clone(), prerotate: vec![], threads: vec![vec![Batch(vec![("x", "a", "1"), ("y", "b", "1")])], vec![Batch(vec![("x", "b", "1"), ("y", "a", "1")])], reader.clone()], finals: Finals::None }, 3, 300.0));
     }
     v
 }
